@@ -353,6 +353,15 @@ class Interp:
                     if m_arr and (init is None or init.strip().k == "InitListExpr"):
                         asz = self.sizeof(tarr)
                         esz_ = self.sizeof((m_arr.group(1) + m_arr.group(3)).strip())
+                        if not esz_ and init is not None and not m_arr.group(3):
+                            # an array of a typedef'd function-pointer type: recognised by what initialises it
+                            kids_ = [x for x in init.strip().c if x is not None]
+                            isfn_ = [x for x in kids_ if x.strip_casts() is not None and x.strip_casts().k == "DeclRefExpr" and x.strip_casts().name in self.P.by_name]
+                            if isfn_ and all((x.strip_casts() is not None and ((x.strip_casts().k == "DeclRefExpr" and x.strip_casts().name in self.P.by_name)
+                                                                               or x.strip_casts().cv == 0)) or x.cv == 0 or x.k == "ImplicitValueInitExpr" for x in kids_):
+                                self.__dict__.setdefault("_fnptr_types", set()).add(m_arr.group(1).strip())
+                                esz_ = 8
+                                asz = int(m_arr.group(2)) * 8
                         if asz and esz_ and asz <= 65536:
                             obj = self.new_object(d["n"], esz_)
                             env[("obj", d["d"])] = obj
